@@ -434,6 +434,19 @@ var groups = []group{
 		`"un1": {"array":[{"xpath":"a | c"}]}`, `"un2": {"array":[{"xpath":"c | a"}]}`,
 		`"un3": {"array":[{"xpath":"*[1] | *[last()]"}]}`, `"un4": {"array":[{"xpath":"c | b | a"}]}`,
 		`"un5": {"array":[{"xpath":"b | a","object":{"v":{"xpath":"."}}}]}`}, nil, ""},
+	// textually identical ARRAY declarations with keep_empty_or_null (one template referenced twice;
+	// two literal copies) on the same node, matching nothing on most records: null both times
+	{"empty-arrays", []string{
+		`"ea1": {"template":"earr"}`, `"ea2": {"template":"earr"}`,
+		`"eb1": {"array":[{"xpath":"nosuch"}],"keep_empty_or_null":true}`, `"eb2": {"array":[{"xpath":"nosuch"}],"keep_empty_or_null":true}`,
+		`"ec1": {"array":[{"xpath":"*[normalize-space(.)='BOOM']"}],"keep_empty_or_null":true}`, `"ec2": {"array":[{"xpath":"*[normalize-space(.)='BOOM']"}],"keep_empty_or_null":true}`},
+		[]string{`"earr": {"array":[{"xpath":"nosuch/deeper"}],"keep_empty_or_null":true}`}, ""},
+	// calls whose args are named like built-in globals, followed (name order, later records) by
+	// scripts that ENUMERATE the global object: a new VM has no enumerable globals
+	{"js-enumerate", []string{
+		`"bi": {"custom_func":{"name":"javascript","args":[{"const":"'x' + Date"},{"const":"Date"},{"xpath":"a","keep_empty_or_null":true},{"const":"Symbol"},{"const":"S"},{"const":"JSON"},{"const":"J"},{"const":"Map"},{"const":"M"}]}}`,
+		`"zglob": {"custom_func":{"name":"javascript","args":[{"const":"'g:' + Object.keys(this).sort().join()"}]}}`,
+		`"zglob2": {"custom_func":{"name":"javascript","args":[{"const":"(function(){var k=[];for(var x in this){k.push(x)};return 'g:'+k.sort().join()}).call(this)"}]}}`}, nil, ""},
 	// a script reading globals it was not passed
 	{"js-global-probe", []string{
 		`"probe": {"custom_func":{"name":"javascript","args":[{"const":"typeof discount === 'undefined' ? 0 : discount"}]}}`,
